@@ -28,8 +28,8 @@ def run(ctx, chk):
     chk.rule("C04.contract", "operations that insert an item take exactly +1 on it and store it in one slot on success, and "
                              "neither on failure; reference-returning getters increment exactly the element they return; "
                              "cbor_array_replace drops one reference on the displaced element")
-    chk.rule("C04.refcount-writers", "the refcount field is stored to only by cbor_incref, cbor_decref, cbor_move and the "
-                                     "constructors' initialisers (which store 1)")
+    chk.rule("C04.refcount-writers", "every store to a refcount field is a unit step of that same field (incref / decref / move, "
+                                     "possibly inlined) or the constant 1 in a constructor's initialiser")
     chk.rule("C04.release", "cbor_decref, when the count reaches zero: per type, releases each owned child slot (guarded by "
                             "non-NULL where slots may be empty) inside a loop bounded by the container's own count, frees "
                             "data exactly where the constructor table says it is separately owned and never an interior "
@@ -78,6 +78,10 @@ def run(ctx, chk):
                     elif e.kind == "store" and (e.args[1] == A or _alias_of(pa, e.args[1]) == A):
                         if ptr_key(e.args[0])[0][0] != "alloca":
                             stores += 1
+                    elif e.kind == "store" and ptr_key(e.args[0])[0] == A:
+                        d_ = O.refcount_delta(off["refcount"], e)
+                        if d_ is not None:
+                            eff_n += d_   # incref / move written out as a field update
                 # classify outcome
                 if how == "always":
                     success = True
@@ -156,15 +160,23 @@ def run(ctx, chk):
             if isinstance(p, Inst) and p.op == "getelementptr" and p.d.get("src_type") == "%struct.cbor_item_t" and \
                     len(p.operands) == 3 and isinstance(p.operands[2], Const) and p.operands[2].v == 1:
                 nw += 1
-                if f.name in ("cbor_incref", "cbor_decref", "cbor_move"):
-                    ok = True
+                v = st.operands[0]
+                from ir import apath
+                unit_step = False
+                if isinstance(v, Inst) and v.op == "add":
+                    a_, b_ = v.operands
+                    c_ = b_ if isinstance(b_, Const) else (a_ if isinstance(a_, Const) else None)
+                    o_ = a_ if c_ is b_ else b_
+                    if c_ is not None and c_.v in (1, (1 << 64) - 1) and isinstance(o_, Inst) and o_.op == "load" and apath(o_.operands[0]) == apath(p):
+                        unit_step = True
+                if unit_step:
+                    ok = True      # x->refcount = x->refcount +- 1 (incref / decref / move, possibly inlined)
                 elif f.name in ctors:
-                    v = st.operands[0]
                     ok = isinstance(v, Const) and v.v == 1
                 else:
                     ok = False
                 chk.ob("C04.refcount-writers", "store to refcount in %s" % f.name, ok, st.loc(), fn=f.name, key="rcw:" + f.name,
-                       detail="" if ok else "reference count written outside incref/decref/move/constructor initialisation")
+                       detail="" if ok else "reference count is set to something other than 1 (fresh item) or itself +- 1")
     chk.floor("C04.refcount-writers", "stores to the refcount field", nw, 20)
 
     # ---- (B) release ---------------------------------------------------------------
